@@ -11,9 +11,9 @@ Mirrors `doit/cmd_forget.py` (`Forget._execute`, as repaired: no argument and no
 The DB, the file system and the per-task decisions are those of M2 (`Model/Status.lean`): a command is a sequence
 of M2 operations on the tasks of its *target list*; what this file adds is the task graph and the target lists.
 
-`fixed = false` gives the pinned behaviour of the two defects F-C13a (`for name in None`: `TypeError`) and
-F-C05/F-C13b (second `select_task` pass does not look at ignored / failed setup-tasks); only the counterexample
-theorems use it.  Core Lean only. -/
+`fixed = false` gives the pinned behaviour of the three defects F-C13a (`for name in None`: `TypeError`),
+F-C05/F-C13b (second `select_task` pass does not look at ignored / failed setup-tasks) and F-C13c (`reset-dep` after a
+checker change drops the ignore mark); only the counterexample theorems use it.  Core Lean only. -/
 namespace DoitModel.Cmds
 open DoitModel.Status
 
@@ -138,7 +138,16 @@ def setIgn (s : St) (t : Name) : St :=
 
 def ignList (s : St) (l : List Name) : St := l.foldl setIgn s
 
-def resetList (s : St) (l : List Name) : St := l.foldl (resetDep true) s
+/-- `ResetDep._execute` for one task, as repaired (017f29e): the ignore mark is read before `get_status` (which drops
+    the whole record when the checker changed) and re-applied after `save_success`.  In the branches that record
+    nothing the mark is still there, so re-applying it is no change.  (`Status.resetDep` is the pinned behaviour.) -/
+def resetOne (s : St) (t : Name) : St :=
+  if (s.rcd t).ign then setIgn (resetDep true s t) t else resetDep true s t
+
+def resetList (s : St) (l : List Name) : St := l.foldl resetOne s
+
+/-- pinned: the mark is not re-applied -/
+def pinnedResetList (s : St) (l : List Name) : St := l.foldl (resetDep true) s
 
 def forgetCmd (fixed : Bool) (g : Graph) (a : ForgetArgs) (dflt : Option (List Name)) (s : St) : St :=
   match forgetTarget fixed g a dflt with
@@ -154,6 +163,11 @@ def ignoreCmd (g : Graph) (names : List Name) (s : St) : St :=
 def resetCmd (g : Graph) (names : List Name) (s : St) : St :=
   match resetTarget g names with
   | .tasks l => resetList s l
+  | _ => s
+
+def pinnedResetCmd (g : Graph) (names : List Name) (s : St) : St :=
+  match resetTarget g names with
+  | .tasks l => pinnedResetList s l
   | _ => s
 
 /-! ## a run that honours ignore marks -/
@@ -273,7 +287,7 @@ def stepC (fixed : Bool) (g : Graph) (s : St) : COp → St
   | .checker c => { s with checker := c }
   | .forget a dflt => forgetCmd fixed g a dflt s
   | .ignore names => ignoreCmd g names s
-  | .reset names => resetCmd g names s
+  | .reset names => if fixed then resetCmd g names s else pinnedResetCmd g names s
   | .run order always plan => (runAll fixed always g plan s order).s
 
 def initC (defs : Name → TaskDef) (c : Checker) : St :=
